@@ -30,14 +30,18 @@ I32 == TInt("Int32", Unset, Unset)
 Str == TStr(Unset, Unset, "")
 
 \* rsv: the shared namespace is called `async`, a Python reserved word (the generated module is then async_)
-Cfgs == {[chain |-> c, pns |-> p, arg |-> a, dep |-> d, style |-> s, ring |-> r, rsv |-> FALSE] :
+Cfgs == {[chain |-> c, pns |-> p, arg |-> a, dep |-> d, style |-> s, ring |-> r, rsv |-> FALSE, tsd |-> FALSE] :
             c \in {"two", "marker3"}, p \in {"same", "foreign"}, a \in {"struct", "union", "void"},
             d \in {"none", "plain", "by"}, s \in {"rpc", "upload", "download"}, r \in {FALSE}}
-        \cup {[chain |-> "two", pns |-> "foreign", arg |-> "struct", dep |-> "none", style |-> "rpc", ring |-> TRUE, rsv |-> FALSE]}
-        \cup {[chain |-> ch, pns |-> p, arg |-> a, dep |-> "none", style |-> "rpc", ring |-> FALSE, rsv |-> TRUE] :
+        \cup {[chain |-> "two", pns |-> "foreign", arg |-> "struct", dep |-> "none", style |-> "rpc", ring |-> TRUE, rsv |-> FALSE, tsd |-> FALSE]}
+        \cup {[chain |-> ch, pns |-> p, arg |-> a, dep |-> "none", style |-> "rpc", ring |-> FALSE, rsv |-> TRUE, tsd |-> FALSE] :
                 ch \in {"two", "marker3"}, p \in {"same", "foreign"}, a \in {"struct", "union", "void"}}
+        \* tsd: a struct field with a Timestamp default and one with a Bytes default (the Swift and Objective-C type backends
+        \* do not complete on these: known finding of C17)
+        \cup {[chain |-> "two", pns |-> p, arg |-> "void", dep |-> "none", style |-> "rpc", ring |-> FALSE, rsv |-> FALSE, tsd |-> TRUE] :
+                p \in {"same", "foreign"}}
         \* dep = "late": no version-1 route is deprecated, only put:2 (by put:3)
-        \cup {[chain |-> "two", pns |-> p, arg |-> a, dep |-> "late", style |-> "rpc", ring |-> FALSE, rsv |-> FALSE] :
+        \cup {[chain |-> "two", pns |-> p, arg |-> a, dep |-> "late", style |-> "rpc", ring |-> FALSE, rsv |-> FALSE, tsd |-> FALSE] :
                 p \in {"same", "foreign"}, a \in {"struct", "union", "void"}}
 CfgIndex(c) == CHOOSE i \in 1..Cardinality(Cfgs) : TRUE
 CfgSeq == SetToSeq(Cfgs)
@@ -54,6 +58,9 @@ Schema(c) ==
     \* a namespace whose only type inherits a defaulted field from another namespace and has nothing optional of its own
     ("Base0"  :> DStruct(NB(c), "", <<Fld("id", Str), FldD("weight", I32, VInt(13))>>, <<>>, FALSE)) @@
     ("Circle" :> DStruct("nf", "Base0", <<Fld("radius", TFloat("Float64", Unset, Unset))>>, <<>>, FALSE)) @@
+    (IF c.tsd THEN ("Stamped" :> DStruct("nf", "", <<FldD("at", TTs("f2"), VTs(0)), FldD("raw", TBytes(Unset, Unset), VBytes(2, 0)),
+                                                    Fld("n", I32)>>, <<>>, FALSE))
+     ELSE <<>>) @@
     \* a namespace that declares nothing but an alias
     ("Label" :> DAlias("aa", TStr(1, Unset, ""), "")) @@
     ("Entry" :> DStruct(AncNs(c), "", <<Fld("ident", Str), Fld("label", TNull(Str)), FldD("rank", S64, VInt(13))>>, <<>>, FALSE)) @@
